@@ -264,7 +264,76 @@ def run_failed_selftest(req):
     return {"obs": obs, "stats": {"failed_selftests": 1}}
 
 
+class Unentered(CM):
+    pass
+
+
+def exact_gen():
+    # a manager that is never entered, and whose exit method the frame keeps for later: not an active manager
+    spare = Unentered()
+    release = spare.__exit__      # noqa: F841
+    with CM() as xyz:             # noqa: F841
+        yield
+
+
+def run_near_limit(req):
+    """auto-detection state; the library's first use happens a few frames under the recursion limit (stack dumps are asked
+    for in `except RecursionError:` handlers too), so deep that the first-use self-test may not fit.  Whatever that call gives,
+    it says nothing about the interpreter: a later, ordinary extraction is exact and warns about nothing."""
+    import sys
+    obs = []
+    stats = {"headrooms": 0, "first_call_errors": 0, "first_call_warned": 0}
+    for headroom in req["headrooms"]:
+        set_trickery_enabled(None)
+        g = exact_gen()
+        next(g)
+        box = {}
+
+        def dive(n):
+            if n > 0:
+                return dive(n - 1)
+            with warnings.catch_warnings(record=True) as w:
+                warnings.simplefilter("always")
+                try:
+                    st = extract(g)
+                    box["error"] = st.error
+                except RecursionError as ex:
+                    box["error"] = ex
+                except BaseException as ex:      # noqa
+                    box["raised"] = repr(ex)
+            box["warned"] = [str(x.message)[:100] for x in w]
+
+        depth = 0
+        f = sys._getframe()
+        while f is not None:
+            depth += 1
+            f = f.f_back
+        try:
+            dive(max(0, sys.getrecursionlimit() - depth - headroom))
+        except RecursionError:
+            continue            # (did not even get that deep)
+        stats["headrooms"] += 1
+        stats["first_call_errors"] += 1 if box.get("error") is not None else 0
+        stats["first_call_warned"] += 1 if box.get("warned") else 0
+        if "raised" in box:
+            obs.append({"kind": "extract_raised_near_the_recursion_limit", "headroom": headroom, "exc": box["raised"]})
+        # back at an ordinary depth
+        with warnings.catch_warnings(record=True) as w:
+            warnings.simplefilter("always")
+            st = extract(g)
+        c = st.frames[0].contexts if st.frames else []
+        if w or st.error is not None or len(c) != 1 or c[0].varname != "xyz" or c[0].start_line is None:
+            obs.append({"kind": "ordinary_extraction_wrong_after_a_first_use_near_the_recursion_limit", "headroom": headroom,
+                        "contexts": [[type(x.obj).__name__, x.varname, x.start_line] for x in c], "error": repr(st.error),
+                        "warnings": [str(x.message)[:100] for x in w]})
+            break
+    set_trickery_enabled(None)
+    return {"obs": obs[:3], "stats": stats}
+
+
 def handle(req):
+    if req["op"] == "modes.near_limit":
+        return run_near_limit(req)
     if req["op"] == "modes.failed_selftest":
         return run_failed_selftest(req)
     if req["op"] == "modes.reset_race":
